@@ -6,6 +6,7 @@ import (
 	"encoding/json"
 	"fmt"
 	"strings"
+	"sync"
 
 	"github.com/99designs/gqlgen/graphql/handler/transport"
 
@@ -70,6 +71,9 @@ func wsSession(ops []wsOp) [][]string {
 	}
 	s.srv.AddTransport(transport.Websocket{})
 	conn := rig.NewConn()
+	// (a real mutex: in the free-running -race pass operation goroutines may still be writing
+	// their last frames when the handler has returned)
+	var fmu sync.Mutex
 	frames := make([][]string, len(ops))
 	done := make([]bool, len(ops))
 	hdrDone, parsed := false, 0
@@ -101,10 +105,12 @@ func wsSession(ops []wsOp) [][]string {
 			if k < 0 || k >= len(ops) {
 				continue
 			}
+			fmu.Lock()
 			frames[k] = append(frames[k], msg.Type+":"+string(msg.Payload))
 			if msg.Type == "complete" || msg.Type == "error" {
 				done[k] = true
 			}
+			fmu.Unlock()
 		}
 	}
 	hrw := rig.NewHijackRW(conn)
@@ -118,7 +124,9 @@ func wsSession(ops []wsOp) [][]string {
 			vrt.Yield("client-send")
 			conn.Feed(rig.ClientFrame(rig.OpText, []byte(fmt.Sprintf(`{"type":"subscribe","id":"%d","payload":%s}`, k, pl))))
 			vrt.Point("client awaits completion", nil, func() int {
-				if done[k] || conn.Closed {
+				fmu.Lock()
+				defer fmu.Unlock()
+				if done[k] || conn.IsClosed() {
 					return 1
 				}
 				return 0
@@ -128,7 +136,13 @@ func wsSession(ops []wsOp) [][]string {
 		conn.CloseClient()
 	})
 	s.srv.ServeHTTP(hrw, req)
-	return frames
+	fmu.Lock()
+	defer fmu.Unlock()
+	out := make([][]string, len(frames))
+	for i, f := range frames {
+		out[i] = append([]string(nil), f...)
+	}
+	return out
 }
 
 func (h *wsHistInst) Body() {
